@@ -159,17 +159,63 @@ def check_pairs_and_keys(prog, rep, tier):
                     assigned = {t.attr for t in ast.walk(lf) if isinstance(t, ast.Attribute) and
                                 isinstance(t.ctx, ast.Store)}
                     chain = lf
-                    sup = resolve_super('from_hdf5')(lf)
+                    sup = resolve_super('from_hdf5')(lf) if _calls_super(lf, 'from_hdf5') else None
                     while sup is not None:
                         assigned |= {t.attr for t in ast.walk(sup) if isinstance(
                             t, ast.Attribute) and isinstance(t.ctx, ast.Store)}
-                        sup = resolve_super('from_hdf5')(sup)
+                        sup = resolve_super('from_hdf5')(sup) if _calls_super(
+                            sup, 'from_hdf5') else None
                     if val.attr not in assigned and not _calls_ctor(lf):
                         rep.violation(
                             'HDF5-restore', lo.module, ql, 'never-restored:' + key[1],
                             '%s saves self.%s under %r but %s never loads it nor sets .%s: the '
                             'loaded object lacks this attribute' %
                             (qs, val.attr, key[1], ql, val.attr), lf.lineno)
+                    elif val.attr not in assigned and _ctor_only_constant(ct, ci, val.attr):
+                        # the reader rebuilds the object through the constructor; the constructor
+                        # can only reproduce what it derives from its arguments
+                        rep.violation(
+                            'HDF5-restore', lo.module, ql, 'ctor-constant:' + key[1],
+                            '%s saves self.%s under %r; %s rebuilds the object with cls(...) and '
+                            'never loads that key, but every __init__ of the class sets .%s to a '
+                            'constant: a value assigned after construction is lost in the round '
+                            'trip' % (qs, val.attr, key[1], ql, val.attr), lf.lineno)
+
+
+def _ctor_only_constant(ct, ci, attr):
+    """True iff the __init__ chain of `ci` assigns self.<attr> and only ever from constants."""
+    found = False
+    cur = ci
+    seen = set()
+    while cur is not None and cur.name not in seen:
+        seen.add(cur.name)
+        f = cur.methods.get('__init__')
+        if f is not None:
+            for n in ast.walk(f):
+                tg = []
+                if isinstance(n, ast.Assign):
+                    tg = [(t, n.value) for t in n.targets]
+                elif isinstance(n, ast.AnnAssign) and n.value is not None:
+                    tg = [(n.target, n.value)]
+                for t, v in tg:
+                    if is_self_attr(t) and t.attr == attr:
+                        if not isinstance(v, ast.Constant):
+                            return False
+                        found = True
+        cur = cur.bases[0] if cur.bases else None
+    return found
+
+
+def _calls_super(f, meth):
+    """Does `f` delegate to ``super().<meth>(...)`` / ``Base.<meth>(...)`` ?"""
+    for c in body_nodes(f):
+        if isinstance(c, ast.Call) and isinstance(c.func, ast.Attribute) and c.func.attr == meth:
+            v = c.func.value
+            if isinstance(v, ast.Call) and dotted(v.func) == 'super':
+                return True
+            if isinstance(v, ast.Name) and v.id[:1].isupper():
+                return True
+    return False
 
 
 def _calls_ctor(f):
